@@ -100,7 +100,7 @@ var c17ScenKinds = []string{
 	"blocked-deliverers-close", "blocked-deliverers-close", "close-during-readfrom", "close-during-readfrom-deadline",
 	"double-close-packetconn", "double-close-listener", "double-close-conn", "listener-close-pending-dials",
 	"ctx-cancel-mid-dial", "dial-unknown-service", "close-while-traffic", "listen-close-immediately",
-	"conn-close-during-read", "concurrent-close-conn",
+	"conn-close-during-read", "concurrent-close-conn", "shutdown-race",
 }
 
 func c17RunScenario(m *mesh.Mesh, sc *c17Scen, progress string) string {
@@ -372,6 +372,49 @@ func c17RunScenario(m *mesh.Mesh, sc *c17Scen, progress string) string {
 		}
 		if !within(bound, wg.Wait) {
 			return "wedge: senders did not return after the target was closed"
+		}
+	case "shutdown-race":
+		// sockets being opened, used and closed on a node at the very moment it is shut down
+		for iter := 0; iter < 12; iter++ {
+			x := m.NewInst(fmt.Sprintf("x%d-%d", sc.Idx, iter))
+			stop := make(chan struct{})
+			var wg sync.WaitGroup
+			for g := 0; g < sc.K; g++ {
+				wg.Add(1)
+				go func(g int) {
+					defer wg.Done()
+					for {
+						select {
+						case <-stop:
+							return
+						default:
+						}
+						switch g % 3 {
+						case 0:
+							if pc, err := x.ListenPacket(""); err == nil {
+								_ = pc.Close()
+							}
+						case 1:
+							ctx, cancel := context.WithTimeout(context.Background(), 20*time.Millisecond)
+							_, _, _ = x.Ping(ctx, "nowhere", 5)
+							cancel()
+						default:
+							if pc, err := x.ListenPacketAndAdvertise("", nil); err == nil {
+								ch := pc.SubscribeUnreachable(stop)
+								_ = ch
+								_ = pc.Close()
+							}
+						}
+					}
+				}(g)
+			}
+			time.Sleep(time.Duration(rng.Intn(3000)) * time.Microsecond)
+			x.Shutdown()
+			time.Sleep(time.Duration(500+rng.Intn(2000)) * time.Microsecond)
+			close(stop)
+			if !within(bound, wg.Wait) {
+				return "wedge: socket operations did not return after the node was shut down"
+			}
 		}
 	case "listen-close-immediately":
 		li, err := a.Listen(svc, nil)
